@@ -60,14 +60,14 @@ for _pid, _what in {
     _default(_pid, _what)
 
 _DED = {
-    "C01": "Discharged for all inputs: the whole read path -- get_node, _traverse_extension, _traverse_from (loop invariant with a ghost key suffix), _traverse, _get, get, exists, __getitem__, __contains__: get(k) = hlk(root node, nibbles(k)) on every database, raising only MissingTrieNode; bytes_to_nibbles and its inverse. The write path (set / delete / squash_changes) is decided by the bounded stand-in only.",
-    "C02": "Discharged: the reference rule (_create_node_to_db_mapping: embedded iff rlp shorter than 32 bytes), the root rule (_set_raw_node), _persist_node, hex-prefix encoding = Yellow-Paper HP with round trip; Lean: uniqueness of the canonical trie and YP => canonical. Shape preservation by the write path is bounded only.",
-    "C03": "Discharged: get (the function get_from_proof evaluates) returns the value the root denotes or raises MissingTrieNode, for every database -- hence soundness of get_from_proof in the ideal-hash reading. _get_proof completeness is bounded only.",
-    "C04": "Discharged: every store write of _persist_node / _set_raw_node is content-addressed and leaves an existing entry unchanged (store-write obligations), ScratchDB never writes the wrapped store while a batch is open and applies deletes only when asked. squash_changes / _complete_pruning frames are bounded only.",
-    "C05": "Discharged: ScratchDB.batch_commit (all-or-nothing on the wrapped store, buffer emptied on both exits). squash_changes itself is bounded only.",
-    "C06": "Discharged: _prune_node (one more pending prune iff the node is hashed), _persist_node / _set_raw_node counting. The accounting of the recursive write path and _complete_pruning are bounded only.",
-    "C07": "Discharged: read path raises MissingTraversalNode / MissingTrieNode only for a hash that is absent from the database (get_node missing case); lookups never modify state (frame obligations). Path-truthfulness of the reported prefix and atomicity of writes are bounded only.",
-    "C08": "Discharged: _traverse_from / _traverse: the node reached holds exactly the keys below the consumed prefix (view equation for an arbitrary continuation), the remainder is a suffix of the key, a non-empty remainder lies strictly inside a leaf / extension path; node classification and key extraction. annotate_node, simulated nodes and traverse_from = traverse are bounded only.",
+    "C01": "Discharged for all inputs (non-pruning configuration; ideal-hash reading): the read path -- get_node, _traverse_extension, _traverse_from (loop invariant with a ghost key suffix), _traverse, _get, get, exists, __getitem__, __contains__: get(k) = hlk(root node, nibbles(k)) on every database, raising only MissingTrieNode; and the write path -- _set, _delete, _normalize_branch_node (helpers _set_kv_node / _set_branch_node / _delete_kv_node / _delete_branch_node executed inside those units), _set_root_node, set, delete, __setitem__, __delitem__: after the call the root denotes the old mapping with k -> v (k removed for delete / set-to-empty), for an arbitrary probe key. The induction over histories is the composition of these per-call contracts. Reference counting of pruning tries (C06) and iteration over batches are not part of these units: squash_changes is under contract with the client block abstracted (C05); what pruning removes is decided by the bounded stand-in.",
+    "C02": "Discharged: the write path preserves the full canonical form hwfp (extension only over a branch, no empty paths, every branch has at least two entries, a child is embedded iff its rlp is shorter than 32 bytes) -- clauses `well-formed` of _set / _delete / _normalize_branch_node; the reference rule (_create_node_to_db_mapping), the root rule (_set_root_node / _set_raw_node: root always hashed, blank root = BLANK_NODE_HASH), _persist_node, hex-prefix encoding = Yellow-Paper HP with round trip. Lean (H.lean): a canonical trie is unique for its contents and the Yellow-Paper construction yields it; together: root = YP root of the contents. The link `hwfp + view => equals the YP trie` is the Lean theorem, not a pyvc obligation.",
+    "C03": "Discharged: get (the function get_from_proof evaluates) returns the value the root denotes or raises MissingTrieNode, for every database -- hence soundness of get_from_proof in the ideal-hash reading. _get_proof (completeness, only nodes on the path) and get_from_proof's wrapper are bounded only.",
+    "C04": "Discharged: every store write of _persist_node / _set_raw_node / _set_root_node is content-addressed and leaves an existing entry unchanged (store-write obligations at every db[k] = v reached in _set / _delete / set / delete), `store-only-grows` postconditions of the write path, squash_changes on a non-pruning trie (commit applies no deletes; an aborted block or a failing write leaves every old entry), _complete_pruning is a no-op without pruning, ScratchDB never writes the wrapped store while a batch is open. at_root snapshots sharing a database are bounded only.",
+    "C05": "Discharged: squash_changes with the client block modelled as an arbitrary sequence of operations on the batch trie (havoc of the batch trie constrained by its own contracts): normal exit adopts the batch root and commits the buffered writes (deletes only when pruning), exceptional exit and a failing write during commit leave root, store entries and reference counts as before; ScratchDB.batch_commit all-or-nothing. `no node that served only intermediate states is added` is bounded only.",
+    "C06": "Discharged: _prune_node (one more pending prune iff the node is hashed and the trie prunes), _persist_node / _set_raw_node counting, _complete_pruning (per-key loop invariant: decrement, delete at zero), squash_changes adopting the batch's counts. The global accounting invariant (count = number of references in the live trie, after every history) is a whole-history property carried by the bounded stand-in and by regenerate_ref_count comparison, not by a pyvc obligation.",
+    "C07": "Discharged: _traverse_from / _traverse / _get / get / exists raise MissingTraversalNode / MissingTrieNode only with a hash absent from the database, with the consumed prefix of the key, and such that the named node lies on the requested path right after that prefix (view equation for an arbitrary continuation); get names the root and the key; lookups modify nothing (frame obligations). Write path (non-pruning): a failing _set / _delete / set / delete has written nothing to the database and left the root unchanged (reads precede writes: _delete returns blank exactly when nothing was written), and names an absent hash with root and key. That the hash named by a failing *write* lies on the key's path, reference counts on failure of pruning tries, and the retry-converges clause are bounded only.",
+    "C08": "Discharged: _traverse_from / _traverse: the node reached holds exactly the keys below the consumed prefix (view equation for an arbitrary continuation), the remainder is a suffix of the key, a non-empty remainder lies strictly inside a leaf / extension path; node classification and key extraction. annotate_node, simulated nodes, traverse / traverse_from wrappers and root_node are bounded only.",
     "C12": "Discharged: BinaryTrie._get = blk; _set: view clause for insert / delete / delete-subtrie on all paths, refusal exactly when the walk says so (brefuse), store only grows by content-addressed writes, insert never yields the blank root; get / exists / set / delete / delete_subtrie wrappers (root unchanged on refusal). Canonical form / history independence: Lean B.lean + bounded.",
     "C13": "Discharged: BinaryTrie._get (the function if_branch_valid evaluates), parse_node and the node encoders. The branch generators of branches.py are bounded only.",
     "C15": "Discharged: SparseMerkleProof.update -- wrong key size and too-short update lists are refused before any assignment, an update of the tracked key changes only the value, any other update changes only the sibling at the first differing bit and reads only node_updates[branch_point] (bit operations through testbit / bxor, DESIGN 6.3). The synchronisation invariant with the tree is Lean S.lean + bounded.",
@@ -91,7 +91,9 @@ MANIFEST_NOTES = (
     "theorems under /verif/spec/lean, re-checked by every check that uses them. Units outside the prover's reach are "
     "decided by a bounded stand-in that runs the real functions against independent oracles; it is labelled bounded "
     "in every evidence file and never counted as proved. Exit codes: 0 held / 1 violation / 3 checker error; an "
-    "undecided obligation (unknown, timeout) never maps to 1. Genuine defects found on the pinned tree (D1-D3) were "
+    "undecided obligation (unknown, timeout) on unchanged code never maps to 1; a clause discharged on the committed baseline "
+    "that is refuted -- or no longer discharged after the code its unit executes has changed -- is a violation (the latter "
+    "ends with no-failing-input-found). Genuine defects found on the pinned tree (D1-D3) were "
     "repaired by two fix: commits in /repo and are recorded as fixed in /verif/known_findings.json. "
     "VT_REPO=<dir> points the same checks at a scratch worktree (used only to test the machinery against seeded changes)."
 )
